@@ -1,4 +1,14 @@
 CHECKS = {
+ "C13": {
+  "text": "Generated linear-Gaussian systems (dims 1..6, SPD Q/R/P over six decades, non-diagonal P, arbitrary y, UKF k incl. negative centre "
+          "weight) and filter runs of up to 25 (quick) / 50 steps, every step compared LOCALLY with a 50-digit mpmath Kalman recursion under "
+          "backward-error tolerances; EKF on a closed-form nonlinear time-dependent family; covariance symmetry / PSD; a statistical "
+          "acceptance test for PF (40 seeded runs, 6-sigma band, Monte-Carlo rate between N and 16N). Exploration; the PF clause is "
+          "statistical evidence only.",
+  "design_ref": "DESIGN.md section 3, C13",
+  "note": "Reference in mpmath; tolerances scale with kappa(S), |K||C| and the dimension. PF seeds are derived from the case, so runs are reproducible.",
+  "technique": "property-based testing: Hypothesis-generated systems and filter histories against a high-precision reference model; statistical oracle for PF",
+ },
  "C08": {
   "text": "Histories of consecutive step() calls on one model with trial outcomes engineered through a scripted user-supplied solver "
           "(descent / no change / ascent / overshoot / raise at the j-th solve), three strategies with drawn legal hyper-parameters behind "
